@@ -396,6 +396,15 @@ func extractC09(c *ctx) (Facts, error) {
 				}
 			}
 			facts[p[0]+"_appends_in_order"] = ok
+			// … and never keeps the caller's slice itself (`xs...` passes the slice, not a copy): every statement that
+			// writes the router's list is that append
+			adopts := false
+			for _, s := range c.stmtsFlat(fd) {
+				if strings.HasPrefix(s, recv+"."+p[1]+" = ") && !strings.HasPrefix(s, recv+"."+p[1]+" = append("+recv+"."+p[1]+", ") {
+					adopts = true
+				}
+			}
+			facts[p[0]+"_copies_the_arguments"] = ok && !adopts
 		}
 	}
 	// --- RunHandlers: decorate, subscribe on the decorated subscriber, snapshot of the middlewares for run
